@@ -52,6 +52,22 @@ CLAIMS: dict[str, tuple[str, str, str, str]] = {
         'two accepted in-body guards (EditUser.post, LoginPage.post) are confirmed by reading and '
         're-verified structurally on every run.',
         'DESIGN.md section 4, C15'),
+    'C17': (
+        'ORM schema extraction + typed deletion-site enumeration + delete-rule matching',
+        'The foreign keys, relationships (with cascades), the association table and the unique '
+        'constraints are read from the mapped_column/relationship/Table declarations; every site '
+        'that deletes a model instance is enumerated with typed receivers. For every history at '
+        'once: a foreign key whose parent can be deleted must have a delete rule (cascade on the '
+        'parent relationship, ORM nullify on a nullable column, ondelete, association table, or '
+        're-target-before-delete at the site); the JSON soft reference Stream.timing_ref must be '
+        'cleared or re-targeted where its media file is deleted; the columns the property calls '
+        'names must carry a uniqueness constraint; replace-on-upload must delete row and file '
+        'together. Referential consistency is decided as far as it is a property of schema + '
+        'deletion sites.',
+        'Not decided: interleavings of concurrent requests, 200/4xx behaviour of listed streams '
+        'after a history, byte-exact serving of uploads. Trusted: SQLAlchemy cascade semantics as '
+        'documented; typed-receiver resolution of the call graph.',
+        'DESIGN.md section 4, C17'),
     'C20': (
         'linear normal forms + must-fact data-flow + zone-domain proof over BufferedReader',
         'Window discipline of BufferedReader for every operation sequence: each absolute position '
